@@ -780,7 +780,31 @@ func genHistory(g *vf.Rng, o histOpts) (calls []hcall, base string, dist map[str
 			h.add(hcall{Op: []string{"assumerep", "assumesep"}[g.Intn(2)], Arg: 0}) // refined by C07 itself
 		case k >= 12 && k <= 16 && o.withRefs:
 			// distance-targeted reference
-			switch g.Intn(6) {
+			switch g.Intn(7) {
+			case 6: // a "hot" label: many references to it, interleaved with first references to other labels
+				hot := h.newLabel()
+				if g.Bool() {
+					h.add(hcall{Op: "label", S: hot})
+				} else {
+					undefined = append(undefined, hot)
+				}
+				nref := 6 + g.Intn(14)
+				for i := 0; i < nref; i++ {
+					if g.Intn(3) == 0 {
+						h.add(hcall{Op: "ins", M: emByName["JMP_abs"], S: hot})
+					} else {
+						h.branch(hot)
+					}
+					switch g.Intn(4) {
+					case 0: // another label gets its first reference in between
+						o := h.newLabel()
+						h.branch(o)
+						undefined = append(undefined, o)
+					case 1:
+						h.pad(g.Intn(6))
+					}
+				}
+				h.dist["hot-label"] = true
 			case 0: // backward branch with chosen distance
 				p := []int{0, 1, 125, 126, 127, g.Intn(140)}[g.Intn(6)]
 				l := h.newLabel()
